@@ -778,3 +778,243 @@ Proof.
       pose proof (tpos_not_temp k) as NT. destruct (tpos k) as [r|q']; cbn [lget]; [apply rget_rset_other; congruence|apply sget_rset].
 Qed.
 End LoadChain3.
+
+(* ====================================================================================== *)
+(* The walk in emission order is Heap.load_object. *)
+From SCC Require Proof.HeapMore.
+
+(* the pointer slots of the abstract state are the words w *)
+Definition ps_w (w : Z -> Z) (a : Heap.st) : Prop := forall q, Heap.ps (Heap.m a q) = [w (q + 16); w (q + 32); w (q + 48)].
+Lemma ps_w_abs F s : ps_w (hword s) (abs_heap F s). Proof. intros q. reflexivity. Qed.
+Lemma ps_w_release w p a : ps_w w a -> ps_w w (Heap.release p a).
+Proof. intros H q. rewrite HeapMore.release_ps. apply H. Qed.
+Lemma ps_w_dec w p a : ps_w w a -> ps_w w (Heap.dec p a).
+Proof. intros H q. rewrite HeapMore.dec_ps. apply H. Qed.
+Lemma ps_w_share_list w l a : ps_w w a -> ps_w w (Heap.share_list l a).
+Proof. intros H q. rewrite HeapMore.share_list_ps. apply H. Qed.
+Lemma ps_w_link w a q : ps_w w a -> Heap.link_of (Heap.m a) q = w (q + 48).
+Proof. intros H. unfold Heap.link_of. now rewrite H. Qed.
+
+Fixpoint nthlink (w : Z -> Z) (j : nat) (p : Z) : Z := match j with O => p | S j' => w (nthlink w j' p + 48) end.
+Lemma nthlink_shift w j p : nthlink w (S j) p = nthlink w j (w (p + 48)).
+Proof. induction j as [|j IH]; [reflexivity|]. cbn [nthlink] in *. now rewrite IH. Qed.
+
+(* number of continuation blocks for n variables *)
+Definition nbo (n : nat) : nat := Nat.div (n + 1) 2.
+Lemma nbo_step n : (1 <= n)%nat -> nbo n = S (nbo (n - 2)).
+Proof.
+  intros Hn. unfold nbo. destruct n as [|[|n]]; [lia|reflexivity|].
+  replace (S (S n) - 2 + 1)%nat with (n + 1)%nat by lia. replace (S (S n) + 1)%nat with (n + 1 + 1 * 2)%nat by lia.
+  rewrite Nat.div_add by lia. lia.
+Qed.
+Lemma nlinks_nbo n : Heap.nlinks n = nbo (n - 3).
+Proof. unfold Heap.nlinks, nbo. destruct (Nat.leb_spec n 3); [|reflexivity]. replace (n - 3)%nat with 0%nat by lia. reflexivity. Qed.
+
+Lemma lf_ptr_nthlink w p : forall fuel to_load, (List.length to_load < fuel)%nat ->
+  lf_ptr fuel w to_load Other p = nthlink w (nbo (List.length to_load)) p.
+Proof.
+  induction fuel as [|f IH]; intros to_load Hf; [lia|]. cbn [lf_ptr].
+  destruct to_load as [|x r]; [reflexivity|].
+  set (tl := x :: r) in *. assert (Hn : (1 <= List.length tl)%nat) by (unfold tl; cbn; lia).
+  change (3 - bp_n Other)%N with 2%N. rewrite IH by (rewrite firstn_length, rest_len_val; change (N.to_nat 2) with 2%nat; lia).
+  rewrite firstn_length, rest_len_val. change (N.to_nat 2) with 2%nat.
+  replace (Nat.min (List.length tl - 2) (List.length tl)) with (List.length tl - 2)%nat by lia.
+  now rewrite (nbo_step (List.length tl) Hn).
+Qed.
+
+(* ---------- Release ---------- *)
+Fixpoint rel_upto (w : Z -> Z) (j : nat) (p : Z) (a : Heap.st) : Heap.st :=
+  match j with O => a | S j' => Heap.release (nthlink w j' p) (rel_upto w j' p a) end.
+Lemma rel_upto_shift w j : forall p a, rel_upto w (S j) p a = rel_upto w j (w (p + 48)) (Heap.release p a).
+Proof.
+  induction j as [|j IH]; intros p a; [reflexivity|].
+  change (rel_upto w (S (S j)) p a) with (Heap.release (nthlink w (S j) p) (rel_upto w (S j) p a)).
+  rewrite IH, nthlink_shift. reflexivity.
+Qed.
+Lemma blk_abs_release w next q cap a : blk_abs Release w next q cap a = Heap.release q a.
+Proof. unfold blk_abs. apply lv_abs_release. Qed.
+
+Lemma lf_abs_release_other w p a : forall fuel to_load, (List.length to_load < fuel)%nat ->
+  lf_abs fuel Release w to_load Other p a = rel_upto w (nbo (List.length to_load)) p a.
+Proof.
+  induction fuel as [|f IH]; intros to_load Hf; [lia|]. cbn [lf_abs].
+  destruct to_load as [|x r]; [reflexivity|].
+  set (tl := x :: r) in *. assert (Hn : (1 <= List.length tl)%nat) by (unfold tl; cbn; lia).
+  change (3 - bp_n Other)%N with 2%N. rewrite blk_abs_release.
+  assert (Lr : List.length (firstn (rest_len (List.length tl) 2) tl) = (List.length tl - 2)%nat).
+  { rewrite firstn_length, rest_len_val. change (N.to_nat 2) with 2%nat. lia. }
+  rewrite IH, lf_ptr_nthlink by (rewrite Lr; lia). rewrite Lr, (nbo_step (List.length tl) Hn). reflexivity.
+Qed.
+Lemma load_object_release_upto w : forall k p a, ps_w w a ->
+  Heap.load_object_release k p a = Heap.release (nthlink w k p) (rel_upto w k p a).
+Proof.
+  induction k as [|k IH]; intros p a Hps; [reflexivity|].
+  cbn [Heap.load_object_release]. rewrite (ps_w_link w a p Hps).
+  rewrite IH by (now apply ps_w_release). rewrite <- nthlink_shift, <- rel_upto_shift. reflexivity.
+Qed.
+Theorem lf_abs_release_load_object w to_load p a :
+  to_load <> [] -> ps_w w a ->
+  lf_abs (S (List.length to_load)) Release w to_load Last p a = Heap.load_object_release (Heap.nlinks (List.length to_load)) p a.
+Proof.
+  intros Hne Hps. cbn [lf_abs]. destruct to_load as [|x r]; [contradiction|].
+  set (tl := x :: r) in *. assert (Hn : (1 <= List.length tl)%nat) by (unfold tl; cbn; lia).
+  change (3 - bp_n Last)%N with 3%N. rewrite blk_abs_release.
+  assert (Lr : List.length (firstn (rest_len (List.length tl) 3) tl) = (List.length tl - 3)%nat).
+  { rewrite firstn_length, rest_len_val. change (N.to_nat 3) with 3%nat. lia. }
+  rewrite lf_abs_release_other, lf_ptr_nthlink by (rewrite Lr; lia). rewrite Lr.
+  rewrite (load_object_release_upto w _ _ _ Hps), nlinks_nbo. reflexivity.
+Qed.
+
+(* ---------- Share ---------- *)
+Lemma lv_abs_share_list2 w bs p a :
+  (List.length bs <= 2)%nat ->
+  (forall j, (j < 2 - N.of_nat (List.length bs))%N -> w (p + field_offset Fst j) = 0) ->
+  (forall i b, nth_error bs i = Some b -> bchi b = Ext -> w (p + field_offset Fst (2 - N.of_nat (List.length bs) + N.of_nat i)) = 0) ->
+  (forall j, (j < 2)%N -> w (p + field_offset Fst j) = 0 \/ is_blk (w (p + field_offset Fst j))) ->
+  st_eqB (lv_abs Share w (rev bs) p 2 a) (Heap.share_list [w (p + 16); w (p + 32)] a).
+Proof.
+  intros Hlen Hz He Hk.
+  assert (E : lv_abs Share w (rev bs) p 2 a = Heap.share (w (p + 16)) 1 (Heap.share (w (p + 32)) 1 a)).
+  { destruct bs as [|b0 [|b1 [|]]]; cbn [List.length] in *; try lia; cbn [rev app lv_abs];
+      change (2 - 1)%N with 1%N; change (1 - 1)%N with 0%N; rewrite ?fo_F0, ?fo_F1.
+    - pose proof (Hz 0%N ltac:(cbn; lia)) as Z0. pose proof (Hz 1%N ltac:(cbn; lia)) as Z1.
+      rewrite fo_F0 in Z0. rewrite fo_F1 in Z1. rewrite Z0, Z1. reflexivity.
+    - pose proof (Hz 0%N ltac:(cbn; lia)) as Z0. rewrite fo_F0 in Z0. rewrite Z0.
+      rewrite share_if; [reflexivity|]. intros Hx. exact (He 0%nat b0 eq_refl Hx).
+    - rewrite (share_if b1); [|intros Hx; exact (He 1%nat b1 eq_refl Hx)].
+      rewrite (share_if b0); [reflexivity|]. intros Hx. exact (He 0%nat b0 eq_refl Hx). }
+  rewrite E. unfold Heap.share_list. cbn [fold_left]. apply share_comm.
+Qed.
+
+Fixpoint lf_share_ok (fuel : nat) (w : Z -> Z) (to_load : ctx) (bp : block_position) (p : Z) : Prop :=
+  match fuel with
+  | O => True
+  | S f => match to_load with
+           | [] => True
+           | _ => let cap := (3 - bp_n bp)%N in
+                  let rl := rest_len (List.length to_load) cap in
+                  let q := lf_ptr f w (firstn rl to_load) Other p in
+                  let next := skipn rl to_load in
+                  lf_share_ok f w (firstn rl to_load) Other p /\ is_blk q /\
+                  (forall j, (j < cap)%N -> w (q + field_offset Fst j) = 0 \/ is_blk (w (q + field_offset Fst j))) /\
+                  (forall j, (j < cap - N.of_nat (List.length next))%N -> w (q + field_offset Fst j) = 0) /\
+                  (forall i b, nth_error next i = Some b -> bchi b = Ext ->
+                     w (q + field_offset Fst (cap - N.of_nat (List.length next) + N.of_nat i)) = 0)
+           end
+  end.
+Lemma lf_share_ok_lf_ok w p : forall fuel to_load bp, lf_share_ok fuel w to_load bp p -> lf_ok fuel Share w to_load bp p.
+Proof.
+  induction fuel as [|f IH]; intros to_load bp H; cbn [lf_share_ok lf_ok] in *; auto.
+  destruct to_load as [|x r]; auto. destruct H as (H0 & Hq & Hk & _). split; [now apply IH|]. split; [exact Hq|].
+  apply lv_kids_all; [exact Hk|]. rewrite rev_length, skipn_length. apply next_len_le. destruct bp; cbn; auto.
+Qed.
+
+Fixpoint shr_upto (w : Z -> Z) (j : nat) (p : Z) (a : Heap.st) : Heap.st :=
+  match j with
+  | O => a
+  | S j' => Heap.share_list [w (nthlink w j' p + 16); w (nthlink w j' p + 32)] (shr_upto w j' p a)
+  end.
+Lemma shr_upto_shift w j : forall p a,
+  shr_upto w (S j) p a = shr_upto w j (w (p + 48)) (Heap.share_list [w (p + 16); w (p + 32)] a).
+Proof.
+  induction j as [|j IH]; intros p a; [reflexivity|].
+  change (shr_upto w (S (S j)) p a) with (Heap.share_list [w (nthlink w (S j) p + 16); w (nthlink w (S j) p + 32)] (shr_upto w (S j) p a)).
+  rewrite IH, nthlink_shift. reflexivity.
+Qed.
+Lemma share_walk_upto w : forall k p a, ps_w w a ->
+  Heap.share_walk k p a =
+  Heap.share_list [w (nthlink w k p + 16); w (nthlink w k p + 32); w (nthlink w k p + 48)] (shr_upto w k p a).
+Proof.
+  induction k as [|k IH]; intros p a Hps.
+  - cbn [Heap.share_walk nthlink shr_upto]. now rewrite Hps.
+  - cbn [Heap.share_walk]. rewrite (ps_w_link w a p Hps). unfold Heap.fields_of. rewrite Hps. cbn [firstn skipn app].
+    rewrite IH by (now apply ps_w_share_list). rewrite <- nthlink_shift, <- shr_upto_shift. reflexivity.
+Qed.
+Lemma share_list_st_eqB l : forall a b, st_eqB a b -> Forall (fun c => c = 0 \/ is_blk c) l -> st_eqB (Heap.share_list l a) (Heap.share_list l b).
+Proof.
+  unfold Heap.share_list. induction l as [|c l IH]; intros a b E Hl; cbn [fold_left]; auto.
+  inversion Hl; subst. apply IH; auto. now apply share_st_eqB.
+Qed.
+
+Lemma lf_abs_share_other w p a : forall fuel to_load, (List.length to_load < fuel)%nat ->
+  lf_share_ok fuel w to_load Other p ->
+  st_eqB (lf_abs fuel Share w to_load Other p a) (shr_upto w (nbo (List.length to_load)) p a).
+Proof.
+  induction fuel as [|f IH]; intros to_load Hf OK; [lia|]. cbn [lf_abs lf_share_ok] in *.
+  destruct to_load as [|x r]; [apply st_eqB_refl|].
+  set (tl := x :: r) in *. assert (Hn : (1 <= List.length tl)%nat) by (unfold tl; cbn; lia).
+  change (3 - bp_n Other)%N with 2%N in *.
+  set (rl := rest_len (List.length tl) 2) in *.
+  assert (Lr : List.length (firstn rl tl) = (List.length tl - 2)%nat).
+  { rewrite firstn_length. unfold rl. rewrite rest_len_val. change (N.to_nat 2) with 2%nat. lia. }
+  assert (Ln : (List.length (skipn rl tl) <= 2)%nat).
+  { rewrite skipn_length. unfold rl. rewrite rest_len_val. change (N.to_nat 2) with 2%nat. lia. }
+  destruct OK as (OK0 & Hq & Hk & Hz & He).
+  rewrite lf_ptr_nthlink in * by (rewrite Lr; lia). rewrite Lr in *.
+  rewrite (nbo_step (List.length tl) Hn). cbn [shr_upto].
+  set (q := nthlink w (nbo (List.length tl - 2)) p) in *.
+  unfold blk_abs.
+  eapply st_eqB_trans; [apply (lv_abs_congr Share (rev (skipn rl tl)) w w q 2 _ (shr_upto w (nbo (List.length tl - 2)) p a))|].
+  - pose proof (IH (firstn rl tl) ltac:(rewrite Lr; lia) OK0) as IH0. rewrite Lr in IH0. exact IH0.
+  - reflexivity.
+  - rewrite rev_length. lia.
+  - apply lv_kids_all; [exact Hk|rewrite rev_length; lia].
+  - apply lv_abs_share_list2; auto.
+Qed.
+
+Theorem lf_abs_share_load_object w to_load p a :
+  to_load <> [] -> ps_w w a -> lf_share_ok (S (List.length to_load)) w to_load Last p ->
+  st_eqB (lf_abs (S (List.length to_load)) Share w to_load Last p a) (Heap.share_walk (Heap.nlinks (List.length to_load)) p a).
+Proof.
+  intros Hne Hps OK. cbn [lf_abs lf_share_ok] in *. destruct to_load as [|x r]; [contradiction|].
+  set (tl := x :: r) in *. assert (Hn : (1 <= List.length tl)%nat) by (unfold tl; cbn; lia).
+  change (3 - bp_n Last)%N with 3%N in *.
+  set (rl := rest_len (List.length tl) 3) in *.
+  assert (Lr : List.length (firstn rl tl) = (List.length tl - 3)%nat).
+  { rewrite firstn_length. unfold rl. rewrite rest_len_val. change (N.to_nat 3) with 3%nat. lia. }
+  assert (Ln : (List.length (skipn rl tl) <= 3)%nat).
+  { rewrite skipn_length. unfold rl. rewrite rest_len_val. change (N.to_nat 3) with 3%nat. lia. }
+  destruct OK as (OK0 & Hq & Hk & Hz & He).
+  rewrite lf_ptr_nthlink in * by (rewrite Lr; lia). rewrite Lr in *.
+  rewrite (share_walk_upto w _ _ _ Hps), nlinks_nbo.
+  set (q := nthlink w (nbo (List.length tl - 3)) p) in *.
+  unfold blk_abs.
+  eapply st_eqB_trans; [apply (lv_abs_congr Share (rev (skipn rl tl)) w w q 3 _ (shr_upto w (nbo (List.length tl - 3)) p a))|].
+  - pose proof (lf_abs_share_other w p a (List.length tl) (firstn rl tl) ltac:(rewrite Lr; lia) OK0) as IH0. rewrite Lr in IH0. exact IH0.
+  - reflexivity.
+  - rewrite rev_length. lia.
+  - apply lv_kids_all; [exact Hk|rewrite rev_length; lia].
+  - apply lv_abs_share_list; auto.
+Qed.
+
+(* ---------- 4b. x_load of any number of variables = Heap.load_object ---------- *)
+Theorem x86_load_ok im pos to_load existing lc cs lc' s sp p h F :
+  x_load to_load existing lc = Ok (cs, lc') -> to_load <> [] ->
+  code_at im pos cs -> labels_at im pos cs -> frame_ok s sp ->
+  lget s sp (tpos (2 * N.of_nat (List.length existing))) = Some p -> is_blk p -> rget s HEAP = Some h ->
+  lf_share_ok (S (List.length to_load)) (hword s) to_load Last p ->
+  (forall x, is_blk x -> min_int + 1 <= hword s x /\ hword s x + Z.of_nat (List.length to_load) <= max_int) ->
+  exists s', steps im pos s (pnth pos (List.length cs)) s' /\
+    st_eqB (abs_heap F s') (Heap.load_object (Heap.nlinks (List.length to_load)) p (abs_heap F s)) /\
+    (forall i b, nth_error to_load i = Some b ->
+       let A := lf_addrs (S (List.length to_load)) (hword s) to_load Last p in
+       let a := nth (List.length A - List.length to_load + i) A 0 in
+       lget s' sp (tpos (2 * N.of_nat (List.length existing + i) + 1)) = Some (hword s (a + 8)) /\
+       (bchi b <> Ext -> lget s' sp (tpos (2 * N.of_nat (List.length existing + i))) = Some (hword s a))) /\
+    (forall k, (k < 2 * N.of_nat (List.length existing))%N -> lget s' sp (tpos k) = lget s sp (tpos k)) /\
+    out s' = out s /\ frame_ok s' sp.
+Proof.
+  intros Hx Hne HC HL FR P Hb Hh OK Room.
+  destruct (x86_load_walk_ok im pos to_load existing lc cs lc' s sp p h F Hx Hne HC HL FR P Hb Hh)
+    as (s' & ST & EQ & V & O & Out & FR').
+  { split; [now apply lf_share_ok_lf_ok|exact Room]. }
+  exists s'. split; [exact ST|]. split; [|auto].
+  eapply st_eqB_trans; [exact EQ|]. unfold Heap.load_object.
+  change (Heap.hdr (Heap.m (abs_heap F s) p)) with (hword s p).
+  destruct (hword s p =? 0).
+  - rewrite lf_abs_release_load_object; [apply st_eqB_refl|exact Hne|apply ps_w_abs].
+  - unfold Heap.load_object_share. apply lf_abs_share_load_object; [exact Hne|apply ps_w_dec, ps_w_abs|exact OK].
+Qed.
+
+Print Assumptions x86_load_walk_ok.
+Print Assumptions x86_load_ok.
